@@ -1,5 +1,6 @@
 import WK.Proofs.C29_coalesce
 import WK.Proofs.C29_writer
+import WK.Proofs.C29_drain
 /-
   C29 — Send results are aligned, ordered and idempotent.
 
@@ -115,6 +116,17 @@ theorem c29_recover_success_sound (af hs : Bool) (mode : RetryMode) (items : Lis
               · simp_all [ROut.error]
               · split <;> simp_all [ROut.error, ROut.appended]
               · split <;> simp_all [ROut.error, ROut.appended]
+
+/-- ordered completion drain (`c29_seq_increasing`, drain half): whatever the arrival order of append
+    completions — duplicates and stale arrivals included — they are handed on in batch-sequence order
+    0, 1, 2, … without gaps; with one append in flight per channel and FIFO pending items this is the
+    submission order -/
+theorem c29_completion_drain_in_order (arrivals : List Nat) :
+    (Drain.run Drain.init arrivals).flatten = List.range (Drain.run Drain.init arrivals).flatten.length := by
+  have := Drain.run_flatten arrivals Drain.init
+  simpa [Drain.init, List.range_eq_range'] using this
+
+example : Drain.run Drain.init [2, 0, 1] = [[], [0], [1, 2]] := by decide
 
 /-- at most one goroutine advances a writer: two advance instances that own it are the same -/
 theorem c29_single_advancer {s : Writer} (r : WReach s) (i j : Nat)
